@@ -142,3 +142,36 @@ impl<'c, W, R, T> RootEvaluationScope<'c, W, R, T> {
 }
 
 pub type RuntimeResult<T> = Result<T, RuntimeViolation>;
+
+#[cfg(feature = "verif")]
+impl<'c, W: 'static, R: 'static, T: 'static> RootEvaluationScope<'c, W, R, T> {
+    /// canonical JSON rendering of a value; lazy containers are forced up to `per_container`
+    /// elements, at most `nodes` nodes are rendered
+    pub fn verif_dump(
+        &self,
+        v: &EvaluatedValue<W, R, T>,
+        per_container: usize,
+        nodes: usize,
+    ) -> serde_json::Value {
+        let mut budget = crate::builtin::verif_dump::Budget {
+            per_container,
+            nodes,
+        };
+        crate::builtin::verif_dump::dump(v, &self.scope, &self.runtime, &mut budget)
+    }
+
+    /// does the value have the shape of the static type
+    pub fn verif_shape(
+        &self,
+        v: &EvaluatedValue<W, R, T>,
+        t: &std::sync::Arc<crate::XType>,
+        per_container: usize,
+        nodes: usize,
+    ) -> Result<(), String> {
+        let mut budget = crate::builtin::verif_dump::Budget {
+            per_container,
+            nodes,
+        };
+        crate::builtin::verif_dump::shape(v, t, &self.scope, &self.runtime, &mut budget)
+    }
+}
